@@ -280,19 +280,19 @@ SPECS["C01"] = {
 
 SPECS["C17"] = {
     "explanation": "Real FileImportLocator.Resolve with path/filepath (Join, Clean, Rel) interpreted from SSA on an import path of N symbolic bytes over "
-                   "{a . /} (thorough: {a b . / space}) and 10 root forms; ReadFile is replaced by a recorder; the opened path must have the root as a "
+                   "{a . /} (thorough: {a b . / space}) and 11 root forms (absolute, relative, with .. and trailing separators, the file system root, the empty string); ReadFile is replaced by a recorder; the opened path must have the root as a "
                    "segment-wise prefix per an independent segment-stack normaliser.",
     "level_text": "bounded: for ALL paths up to N bytes over the alphabet and all listed roots, no path outside the root is opened",
     "level_note": "trusts go/ssa, gosym, z3; ioutil.ReadFile stubbed (records path); os.PathSeparator '/' (Linux); symlinks outside ('lexically')",
     "harnesses": [
         {"name": "H1-paths-%d" % n, "pkg": "util", "files": ["util/c17.go"], "fn": "VerifC17Resolve",
-         "what": "all import paths of exactly %d bytes over {a,.,/} x 10 roots" % n, "reach": ["resolved", "opened"] if n > 0 else ["resolved"],
+         "what": "all import paths of exactly %d bytes over {a,.,/} x 11 roots" % n, "reach": ["resolved", "opened"] if n > 0 else ["resolved"],
          "quick": {"params": {"N": n}, "unwind": 60, "wall_s": 600} if n <= 5 else None,
          "thorough": {"params": {"N": n}, "unwind": 80, "wall_s": 2400}}
         for n in (1, 2, 3, 4, 5, 6, 7)
     ] + [
         {"name": "H1-paths-wide-%d" % n, "pkg": "util", "files": ["util/c17.go"], "fn": "VerifC17Resolve",
-         "what": "all import paths of exactly %d bytes over {a,b,.,/,space} x 10 roots" % n, "reach": ["resolved", "opened"],
+         "what": "all import paths of exactly %d bytes over {a,b,.,/,space} x 11 roots" % n, "reach": ["resolved", "opened"],
          "quick": None,
          "thorough": {"params": {"N": n, "ALPHA": 1}, "unwind": 80, "wall_s": 2400}}
         for n in (5, 6)
